@@ -56,7 +56,7 @@ def plan(tier, seed):
     specs.append({"kind": "matrix"})
     specs.append({"kind": "names"})
     n_rand = 12 if tier == "quick" else 44
-    per = 700 if tier == "quick" else 5000
+    per = 1200 if tier == "quick" else 6000
     for i in range(n_rand):
         specs.append({"kind": "random", "n": per, "spellings": 3 if tier == "quick" else 8, "profile": ["unique", "mixed", "lookalike"][i % 3], "deep": i % 6 == 5})
     return specs
